@@ -79,8 +79,14 @@ def one(ctx, rng):
     subs = {sym[s]: float(v) for s, v in zip(sl, x)}
     subs.update({psyms[k]: float(v) for k, v in spec["params"].items()})
     h = 0.01
+    # the state as a non-contiguous float view of a longer buffer (a row of a result table, a column of an array) in half
+    # of the cases: the state is the array's elements, whatever its memory layout
+    strided = rng.chance(1, 2)
+    xin = (lambda: np.repeat(x, 2)[::2]) if strided else (lambda: x.copy())
+    if strided:
+        ctx.count("state_as_strided_view")
     for method in METHODS:
-        J = np.array(py_get_jacobian(M, x.copy(), method=method))
+        J = np.array(py_get_jacobian(M, xin(), method=method))
         ctx.evaluated()
         Jt = np.zeros_like(J)
         for i in range(len(sl)):
@@ -97,7 +103,7 @@ def one(ctx, rng):
                                   {"spec": spec, "state": x.tolist(), "method": method, "i": i, "j": j})
                     return
         pname = rng.choice(sorted(spec["params"]))
-        Z = np.array(py_get_sensitivity_to_parameter(M, x.copy(), pname, method=method)).flatten()
+        Z = np.array(py_get_sensitivity_to_parameter(M, xin(), pname, method=method)).flatten()
         ctx.evaluated()
         for i in range(len(sl)):
             zt = float(sympy.diff(f[i], psyms[pname]).subs(subs))
